@@ -387,4 +387,13 @@ theorem new_nodes_are_new (s : St) (ops : List Op) (h : Inv s) (a : Nat)
   · have := (identities_never_reused s ops h a ha).2; omega
   · omega
 
+/-- histories compose: running `a ++ b` is running `b` from where `a` ended - so every theorem about "any history from a
+    state satisfying the invariant" applies at every intermediate point of a longer history -/
+theorem run_append (s : St) (a b : List Op) : run s (a ++ b) = run (run s a) b := by
+  simp [run, List.foldl_append]
+
+/-- the invariant at EVERY PREFIX of a history, not only at its end -/
+theorem inv_at_every_prefix (d : IDoc) (ops : List Op) (k : Nat) : Inv (run (buildSt d) (ops.take k)) :=
+  inv_run _ _ (buildSt_inv d)
+
 end XmlRs.C12
